@@ -45,6 +45,44 @@ Proof. exact has_member_complete_16. Qed.
 Theorem C14_lowercase_root_decodes : forall b, Forall (fun x => x < 256) b -> hex_decode (hex_encode b) = Some b.
 Proof. exact hex_encode_decodes. Qed.
 
+(* ---------------- accepted root spellings ---------------- *)
+(* verify_merkle_root is the single definition of what instantiate accepts as a root: exactly
+   64 (32 for the tiered tree) hexadecimal digits in any case -- no "0x" prefix, no
+   whitespace, no other length *)
+Theorem C14_accepted_root_spelling_sha256 : forall s,
+  verify_merkle_root 32 s = Ok tt <-> length s = 64%nat /\ forallb is_hex_char s = true.
+Proof. exact (accepted_spelling_iff 32). Qed.
+
+Theorem C14_accepted_root_spelling_blake3_16 : forall s,
+  verify_merkle_root 16 s = Ok tt <-> length s = 32%nat /\ forallb is_hex_char s = true.
+Proof. exact (accepted_spelling_iff 16). Qed.
+
+(* every accepted spelling denotes L bytes *)
+Theorem C14_accepted_root_denotes : forall L s, verify_merkle_root L s = Ok tt ->
+  exists r, hex_decode s = Some r /\ length r = L.
+Proof. exact accepted_spelling_denotes. Qed.
+
+(* instantiate stores the string as received, and only after verify_merkle_root accepted it *)
+Theorem C14_instantiate_root : forall now funds rs uri_ok st en lim admins aok mut s,
+  wl_instantiate now funds rs uri_ok st en lim admins aok mut = Ok s ->
+  wl_root s = rs /\ verify_merkle_root 32 rs = Ok tt.
+Proof. exact wl_instantiate_root. Qed.
+
+Theorem C14_tiered_instantiate_roots : forall now funds roots uris_ok stages admins aok mut s,
+  tw_instantiate now funds roots uris_ok stages admins aok mut = Ok s ->
+  tw_roots s = roots /\ tw_stages s = stages /\ Forall (fun r => verify_merkle_root 16 r = Ok tt) roots.
+Proof. exact tw_instantiate_roots. Qed.
+
+(* completeness tied to instantiate acceptance: whatever spelling of the tree's root
+   instantiate accepted, every listed entry is accepted with its proof after any history *)
+Theorem C14_instantiate_then_complete : forall (H : list N -> list N),
+  (forall x, length (H x) = 32%nat) -> (forall x, Forall (fun b => b < 256) (H x)) ->
+  forall now funds rs uri_ok st en lim admins aok mut s (ms : list (list N)) i m h,
+  wl_instantiate now funds rs uri_ok st en lim admins aok mut = Ok s ->
+  hex_decode rs = Some (root H ms) -> nth_error ms i = Some m ->
+  wl_has_member H (wl_run_steps h s) m (map hex_encode (proof_at H ms i)) = Ok true.
+Proof. exact wl_instantiate_complete. Qed.
+
 (* ---------------- soundness ---------------- *)
 (* byte level.  Accepted => listed, or two different inputs with the same digest (found by
    the search over the inputs H was applied to), or one of the two shapes a tree without
@@ -317,6 +355,18 @@ Example C14_ex_root_spelling :
   has_member 2 toyH [65;51;48;53] [99;100] p = Ok false.
 Proof. vm_compute. repeat split; reflexivity. Qed.
 
+(* spellings: lower / upper / mixed case accepted; 0x prefix, whitespace, 63 / 65 / 62 / 66
+   digits, empty, a non-hex character, the other tree's length refused *)
+Example C14_ex_spellings :
+  let r := hex_encode (repeat 171 32) in
+  let up := map (fun c => if (97 <=? c) && (c <=? 102) then c - 32 else c) r in
+  map (fun s => is_ok (verify_merkle_root 32 s))
+      [r; up; firstn 32 up ++ skipn 32 r; [48; 120] ++ r; [48; 88] ++ r; [32] ++ r; r ++ [32]; r ++ [10];
+       firstn 63 r; r ++ [48]; firstn 62 r; r ++ [48; 48]; []; [103] ++ skipn 1 r; firstn 32 r;
+       [48; 120] ++ firstn 62 r]
+  = [true; true; true; false; false; false; false; false; false; false; false; false; false; false; false; false].
+Proof. vm_compute. reflexivity. Qed.
+
 (* root immutability is a fact about `execute`'s dispatch: the update handler that exists
    in contract.rs would replace the root if anything called it *)
 Example C14_ex_unreachable_handler_would_change_root :
@@ -379,6 +429,12 @@ Print Assumptions C14_complete.
 Print Assumptions C14_complete_sha256.
 Print Assumptions C14_complete_blake3_16.
 Print Assumptions C14_lowercase_root_decodes.
+Print Assumptions C14_accepted_root_spelling_sha256.
+Print Assumptions C14_accepted_root_spelling_blake3_16.
+Print Assumptions C14_accepted_root_denotes.
+Print Assumptions C14_instantiate_root.
+Print Assumptions C14_tiered_instantiate_roots.
+Print Assumptions C14_instantiate_then_complete.
 Print Assumptions C14_sound_sha256.
 Print Assumptions C14_sound_blake3_16.
 Print Assumptions C14_sound_wellformed.
